@@ -155,6 +155,9 @@ def run(ctx):
     seipdv2(ctx, P)
     primitive(ctx, P)
     trailing(ctx, P)
+    from rules import stream as _s
+    _s.eof_kind_protocol(ctx, P)
+    _s.eof_helper_not_leaked(ctx, P)
     # no error of the integrity machinery is dropped on the way to the consumer (R-err of C09 restricted to the decryptor stack)
     from rules import stream
     stream.r_err(ctx, P, only=r'crypto::(aead|sym)::|composed::message::reader::(sym_encrypted|packet_body)|composed::message::(types|decrypt)', floor=250)
